@@ -486,11 +486,14 @@ def run(prog, rep, tier):
     rep.only_rules = {"R1-select", "R2-pipeline", "R3-xmap", "R1-outcross", "R4-ctor", "R2-tiles", "R5-space"}
     for r, n in (("R1-select", 20), ("R2-pipeline", 8), ("R3-xmap", 3), ("R1-outcross", 2), ("R4-ctor", 50), ("R5-space", 10)):
         rep.floor(r, n)
-    check_select(prog, rep)
-    check_pipeline(prog, rep)
+    from sa.report import second_reading
+    fs = [f_ for m_ in prog.modules.values() if any(m_.name.startswith(p_) for p_ in ('pybrops.breed.prot.sel',)) for f_ in list(m_.functions.values()) + [g_ for c_ in m_.classes.values() for g_ in c_.methods.values()]]
+    second_reading(rep, fs, lambda r_: check_select(prog, r_))
+    second_reading(rep, fs, lambda r_: check_pipeline(prog, r_))
     check_xmap(prog, rep)
     check_ctor_forwarding(prog, rep)
     check_cross_space(prog, rep)
-    c17.check_outcross(prog, rep)
-    c17.check_tiled(prog, rep)
+    fs17 = [f_ for m_ in prog.modules.values() if any(m_.name.startswith(p_) for p_ in ('pybrops.core.random.sampling',)) for f_ in list(m_.functions.values()) + [g_ for c_ in m_.classes.values() for g_ in c_.methods.values()]]
+    second_reading(rep, fs17, lambda r_: c17.check_outcross(prog, r_))
+    second_reading(rep, fs17, lambda r_: c17.check_tiled(prog, r_))
     wire(prog, rep, "C07", 55, 310, 480)
